@@ -15,7 +15,7 @@ Delimit Scope Z_scope with CZ.
 Local Notation P := ZParr.
 Local Notation D := dflt_opts.
 """
-TARGETS = ["Props/P_C02.vo"]
+TARGETS = ["Gen/GenSource.vo", "Bridge/BridgeSrcC02.vo", "Props/P_C02.vo"]
 ARG_SHAPES = [(), (), (2,), (2, 1), (1, 3), (3,), (2, 1, 3)]
 INT_TYPES = [numpy.int8, numpy.int16, numpy.int32, numpy.int64, numpy.uint8, numpy.uint16, numpy.uint32, numpy.uint64]
 
@@ -64,7 +64,8 @@ def coq_parg(a):
 
 
 def run(report, tier, seed):
-    ok = core.prove(report, TARGETS)
+    from harness.translators import source_tr
+    ok = core.prove_tied(report, TARGETS, [source_tr])
     rng = core.rng_for(seed, "C02")
     cc = core.CoqCases("C02", HEADER, shard=150)
     viol = []
